@@ -470,6 +470,44 @@ def r04i(ctx):
         raise AnalysisError("R04i: media-type stores of Blob not found")
 
 
+def r04j(ctx):
+    """The media type that is checked is the media type that is written.
+
+    "The first zip entry is `mimetype`, its content is the type of the document, and the manifest root entry has the same type."  A container
+    accepts the `mimetype` part it reads only if it is one of ODF_MIMETYPES, and then keeps the bytes as they are — they become the first
+    zip entry of the next save.  If the test looks at a tidied copy (stripped, lower-cased) while the raw bytes are kept, a file whose
+    `mimetype` ends with a newline is accepted and written back with the newline: no ODF type, not the manifest's type, and the saved file is
+    refused on reopening.  Rule: wherever a value is tested for membership in ODF_MIMETYPES (or ODF_EXTENSIONS' values), no lossy string
+    call lies between the value that is kept and the value that is tested — decoding bytes to str is the only conversion.
+    """
+    from .c14 import LOSSY
+    repo = ctx.repo
+    ctx.rule("R04j", "a media type is tested against ODF_MIMETYPES exactly as it is kept (decoding aside)", floor=2)
+    n = 0
+    for f in repo.all_funcs():
+        for t in walk_no_nested(f.node):
+            if not (isinstance(t, ast.Compare) and len(t.ops) == 1 and isinstance(t.ops[0], (ast.In, ast.NotIn))):
+                continue
+            rhs = t.comparators[0]
+            if not (isinstance(rhs, ast.Name) and rhs.id == "ODF_MIMETYPES"):
+                continue
+            n += 1
+            lossy = [c for c in ast.walk(t.left) if isinstance(c, ast.Call) and isinstance(c.func, ast.Attribute) and c.func.attr in LOSSY]
+            # a local tested by name: its definitions must not be tidied copies of something else that is kept
+            if isinstance(t.left, ast.Name):
+                for a in walk_no_nested(f.node):
+                    if isinstance(a, ast.Assign) and any(isinstance(x, ast.Name) and x.id == t.left.id for x in a.targets):
+                        lossy += [c for c in ast.walk(a.value) if isinstance(c, ast.Call) and isinstance(c.func, ast.Attribute) and c.func.attr in LOSSY]
+            ctx.instance("R04j", f"{f.file}:{f.ident}", f"{norm(t, 50)}: tested as kept", ok=not lossy, nontrivial=True, line=t.lineno)
+            for c in lossy[:1]:
+                ctx.report("R04j", f, t, f"{norm(t, 50)} via {c.func.attr}()",
+                           f"{f.ident} tests `{norm(t.left, 40)}` against ODF_MIMETYPES after `.{c.func.attr}()`, but the value that is kept (and written as the `mimetype` entry of the next "
+                           f"save) is the untidied one: a type with surrounding white space or other spelling passes the check and is saved as it is — not an ODF type, not the type of the "
+                           f"manifest root entry")
+    if n < 2:
+        raise AnalysisError(f"R04j: only {n} membership test(s) against ODF_MIMETYPES found")
+
+
 def run(ctx):
     r04a(ctx)
     r04b(ctx)
@@ -484,6 +522,7 @@ def run(ctx):
     r04f(ctx)
     r04h(ctx)
     r04i(ctx)
+    r04j(ctx)
     # the manifest entry of a part is found and removed by the exact path: a prefix or substring match unlists other parts that stay in the package (shared with C14)
     from .c14 import r14f
     r14f(ctx)
@@ -499,6 +538,8 @@ _DOC = "src/odfdo/document.py"
 _MA = "src/odfdo/manifest.py"
 _MAN = "src/odfdo/manifest.py"
 SEEDS = [
+    Seed("the folder reader tolerates white space around the mimetype it then keeps raw", "fault", _CT,
+         "        if bytes_to_str(mimetype) not in ODF_MIMETYPES:", "        if bytes_to_str(mimetype).strip() not in ODF_MIMETYPES:", "R04j"),
     Seed("Blob.from_path looks unknown extensions up in a small table without default", "fault", _DOC,
          '            blob.mime_type = "application/octet-stream"\n        return blob\n\n    @classmethod\n    def from_io', '            blob.mime_type = {".emf": "image/x-emf"}.get(extension)\n        return blob\n\n    @classmethod\n    def from_io', "R04i"),
     Seed("merge_styles_from files the fill image under its raw href", "fault", _DOC,
